@@ -209,9 +209,12 @@ impl Screen {
             return; // No changes.
         }
 
+        self.dirty.retain(|y| *y < lines);
         self.dirty.extend(0..lines);
 
         if lines < self.lines {
+            // Rows leave from the top of the screen, not of the scrolling region.
+            self.margins = None;
             self.save_cursor();
             self.cursor_position(Some(0), Some(0));
             self.delete_lines(Some(self.lines - lines)); // Drop from the top.
